@@ -63,6 +63,13 @@ pub trait Layer: Sized {
         let _ = (raw, off);
         Self::H
     }
+    /// false when the header's own length field is invalid per the standard (IPv4 IHL < 5, TCP data
+    /// offset < 5): the standards define no decoding for such a header, so the check accepts both
+    /// "parsed leniently" and "rejected with an error object" (but never a panic).
+    fn ref_valid(raw: &[u8], off: usize) -> bool {
+        let _ = (raw, off);
+        true
+    }
     /// snap() index of the property that determines the header length (IPv4 ihl, TCP dataoff);
     /// MAXF when the header has a fixed size. Assigning it may make a short buffer un-parsable.
     const LEN_FIELD: usize = MAXF;
@@ -201,6 +208,9 @@ impl Layer for Ipv4Packet {
         } else {
             20
         }
+    }
+    fn ref_valid(raw: &[u8], off: usize) -> bool {
+        (raw[off] & 0x0F) >= 5
     }
 }
 
@@ -343,6 +353,9 @@ impl Layer for Tcp {
             20
         }
     }
+    fn ref_valid(raw: &[u8], off: usize) -> bool {
+        (raw[off + 12] >> 4) >= 5
+    }
 }
 
 /// TCP with the `flags` property included, under one fixed RFC reading of W bits (8, 9 or 12).
@@ -354,6 +367,9 @@ impl<const W: u32> Layer for TcpW<W> {
     const LEN_FIELD: usize = 4;
     fn ref_need(raw: &[u8], off: usize) -> usize {
         Tcp::ref_need(raw, off)
+    }
+    fn ref_valid(raw: &[u8], off: usize) -> bool {
+        Tcp::ref_valid(raw, off)
     }
     fn parse(raw: Rc<Vec<u8>>, off: usize) -> Result<Self, PacketError> {
         Tcp::from_bytes(raw, off).map(TcpW)
@@ -424,10 +440,12 @@ pub fn dec<X: Layer, const L: usize>(off: usize, pin0: i32) {
             // truncated: shorter than the fixed header, or shorter than the header length the
             // packet itself announces (IPv4 IHL).
             // (ref_need reads the length field, which exists only if the fixed header does)
-            assert!(
-                L < off + X::H || L < off + X::ref_need(&raw, off),
-                "VERIF: parse rejected a buffer that holds a complete header"
-            );
+            if L >= off + X::H {
+                assert!(
+                    !X::ref_valid(&raw, off) || L < off + X::ref_need(&raw, off),
+                    "VERIF: parse rejected a buffer that holds a complete header"
+                );
+            }
             std::mem::forget(e);
         }
     }
